@@ -131,7 +131,7 @@ class Sym:
     lo/hi : interval bounds (hi may be None = unbounded)
     """
 
-    __slots__ = ("bits", "poly", "nonzero", "lo", "hi", "origin", "view", "sum_of", "tag")
+    __slots__ = ("bits", "poly", "nonzero", "lo", "hi", "origin", "view", "sum_of", "tag", "capped_by_view")
 
     def __init__(self, bits=None, poly=None, nonzero=False, lo=0, hi=None, origin=None):
         if bits is not None:
